@@ -176,12 +176,18 @@ Proof. vm_compute. split; reflexivity. Qed.
 (* The monitors on the MODEL's own observations, for every event list and configuration (see Props_C07.v for the full
    account).  FULL STATEMENT WANTED:
      forall cfg evs, monitor mon 0 (minit cfg) [] evs (run_obs step_opt (hinit cfg) evs) = []
-   PROVED for the clauses of [proved]; of property 6 these are 6/5 (the Release calls that got past the flag swap are the
-   ones the reference counts) and 6/9 (every observation of the model parses).  6/1 - 6/4 (key set, data, return values,
-   references) remain: the relation between the reference machine's key table and the model's key map is not yet
-   established; the bounded cross-check of ./check and the refinement theorems above cover them meanwhile. *)
-From Util Require Import Keyed.ProofsMon Keyed.ProofsMon2 Keyed.ProofsMonAll.
-Theorem c06_model_satisfies_monitors_clauses_6_5 : forall cfg evs,
-  monitor (mon_only proved) 0 (minit cfg) [] evs (run_obs step_opt (hinit cfg) evs) = [].
-Proof. exact model_satisfies_monitors_proved. Qed.
-Print Assumptions c06_model_satisfies_monitors_clauses_6_5.
+   PROVED for the clauses of [proved2]; of property 6 these are ALL its clauses: 6/1 (the key set after every event is the
+   reference key set), 6/2 (data values), 6/3 (every return value), 6/4 (a reference-counted key is present while an
+   unreleased reference exists), 6/5 (the Release calls that got past the flag swap) and 6/9 (every observation parses).
+   The reference machine's key table (data, DEADLINE of the pending removal, failed flag per key, constructor counts)
+   describes the model's key map (timer TOKENS) after every codec-level step: the request-level machine simulates the
+   reference specification AbsSpec.v (extended by ResetRoutine/ResetAllRoutines, ProofsReset.v) operation by operation. *)
+From Util Require Import Keyed.ProofsMon Keyed.ProofsMon2 Keyed.ProofsMonAll Keyed.ProofsMonAll2.
+Theorem c06_model_satisfies_monitors_clauses_6_1_6_2_6_3_6_4_6_5 : forall cfg evs,
+  monitor (mon_only proved2) 0 (minit cfg) [] evs (run_obs step_opt (hinit cfg) evs) = [].
+Proof. exact model_satisfies_monitors_proved2. Qed.
+Print Assumptions c06_model_satisfies_monitors_clauses_6_1_6_2_6_3_6_4_6_5.
+Example c06_proved_clauses :
+  filter proved2 [(6,1);(6,2);(6,3);(6,4);(6,5);(6,9);(7,1);(7,2);(7,3);(7,4);(7,5);(7,6);(7,7);(7,9)]%nat
+  = [(6,1);(6,2);(6,3);(6,4);(6,5);(6,9);(7,1);(7,2);(7,3);(7,4);(7,6);(7,7);(7,9)]%nat.
+Proof. reflexivity. Qed.
